@@ -105,6 +105,23 @@ CHECKS = {
             "tests of the zero rate, lag-1 and cross-call mask correlation.",
             "Statistical assertions are 6-sigma with seeds drawn by Hypothesis; tolerance 2e-4 (float32) / 1e-9 (float64).",
             "DESIGN.md 4/C13"),
+    "C14": ("property-based metamorphic testing (Hypothesis): both sides of each documented identity built from the library itself",
+            "For 17 documented identities (cross-entropy/NLL/log_softmax, BCE pair, log(softmax), linear, addmm, "
+            "conv2d=W_flat@unfold, conv1d via a height-1 image, max/avg pooling via unfold windows, a-b, a/b, mean, "
+            "stack/concat, unbind(stack), flatten/reshape, adjacent movedim/transpose, Neuron/Linear, Sequential) "
+            "operands are generated by the corresponding op generators; outputs and every operand gradient of both "
+            "sides must agree.",
+            "Both sides are synapgrad computations (a defect shared by both sides is C01/C02/C06's to find); moderate "
+            "logits for the sigmoid/BCE and log(softmax) pairs.",
+            "DESIGN.md 4/C14"),
+    "C15": ("statistical property-based testing (Hypothesis) with independently computed scales",
+            "Each initialiser is run on drawn shapes (4096-40000 elements), gains, modes, nonlinearities, slopes, "
+            "dtypes and seeds; identity/shape/dtype/flag invariants, bounds (uniform), mean/std within 6 standard "
+            "errors of the independently computed documented scale, KS test (normal, 1e-9); constants exact; invalid "
+            "mode/nonlinearity/rank raise; Linear/Conv layers start from U(+-1/sqrt(fan_in)).",
+            "6-sigma / 1e-9 statistical bounds with Hypothesis-drawn library seeds; gain table and fan computation "
+            "transcribed from the docstrings.",
+            "DESIGN.md 4/C15"),
     "C16": ("property-based differential + metamorphic testing (Hypothesis) with an enumerated geometry grid",
             "Generated-input search: the three im2col and three col2im implementations, extract_windows and "
             "place_windows are compared bit-wise against a brute-force loop reference, and the adjoint and "
